@@ -189,6 +189,10 @@ def run(chk, repo, tier):
     # ---------------------------------------------------------------- C10-f
     common.mul_concat(chk, repo, 'C10-f')
     plane_copy_rules(chk, repo, 'C10-f')
+    from . import c17 as _c17
+    nd_ = list(chk.not_decided)
+    _c17.run(common.Remap(chk, {'C17-e': 'C10-f'}), repo, tier)
+    chk.not_decided[:] = nd_
     for key, cfg in (('plane.Plane.fit_tilt', {'inplace': FALSE}), ('plane.Plane.rescale', None),
                      ('plane.Plane.resample', None)):
         f = repo.func(key)
